@@ -64,13 +64,24 @@ def _is_shared_borrow(b, bb, idx):
 
 
 def r2_input_resolution(ctx):
+    from rules.engine.q import sig as _sig0
+    IN_RAW = []
+
+    def sig(e):          # local view: the element of an iterator variable `it` (while-let spelling) reads as the element of what `it` ranges over
+        out = _sig0(e)
+        for a in IN_RAW:
+            out = out.replace(a, "elem(elem($1).inputs)")
+        return out
     r = ctx.rule("R2", "an input not created in the batch is looked up with state.coins.get_coin(input); absent ⇒ Err(NonexistentCoin); check_tx_validity: missing entry ⇒ Err(NonexistentCoin)")
     b = ctx.body(AP + "extract_input_coins", r)
-    loops = [l for l in q.loop_with_source(b, lambda s: True)]
+    loops = [l for l in q.loop_nest(b)]
     srcs = sorted(sig(l[3]) for l in loops)
     r.check(srcs == ["$1", "elem($1).inputs"], "loops", "nested loop over every input of every transaction", "loops over %s" % srcs)
     inner = [l for l in loops if sig(l[3]) == "elem($1).inputs"]
     IN = "elem(elem($1).inputs)"
+    # `let mut it = txs.iter().flat_map(..); while let Some(input) = it.next()`: inside the loop the element reads elem(it)
+    raw = [mir.strip(l[3]) for l in q.loop_with_source(b, lambda s_: True)]
+    IN_RAW.extend("elem(%s)" % x[1] for x in raw if x[0] == "var")
     ck = [(bi, e) for bi, e in q.call_exprs(b, "HashMap::contains_key") if sig(e) == "HashMap::contains_key($3, %s)" % IN]
     r.check(len(ck) == 1, "in-batch-test", "tests whether the input is created in the batch", "in-batch tests: %d" % len(ck))
     ins = [(bi, e) for bi, e in q.call_exprs(b, "HashMap::insert")]
@@ -80,7 +91,8 @@ def r2_input_resolution(ctx):
     r.check(len(cache) == 1 and sig(cache[0][1]) == CACHE, "cache", "cache = all inputs ↦ state.coins.get_coin(input)", "cache = %s" % [sig(c[1])[:200] for c in cache])
     cl = ctx.prog.closures_of(b)
     sigs = [[sig(x[2]) for x in q.ret_assignments(c)] for c in cl]
-    r.check(sigs == [["<I as rayon::iter::IntoParallelRefIterator<'data>>::par_iter($2.inputs)"], ["tuple($2, CoinMapping::get_coin(^state.coins, $2))"]], "cache/closures",
+    WANTC = [["<I as rayon::iter::IntoParallelRefIterator<'data>>::par_iter($2.inputs)"], ["tuple($2, CoinMapping::get_coin(^state.coins, $2))"]]
+    r.check(all(w in sigs for w in WANTC), "cache/closures",
             "every input of every transaction is looked up in the state's coin tree", "cache closures return %s" % sigs)
     X = "Option::unwrap(HashMap::get(%s, %s))" % (CACHE, IN)
     xs = [(bi, e) for bi, e in q.all_call_exprs(b) if sig(e) == X]
@@ -130,7 +142,7 @@ def r3_double_spend(ctx):
     if not ins:
         return
     gb, ge = ins[0]
-    loops = q.loop_with_source(b, lambda s: True)
+    loops = q.loop_nest(b)
     outer = [l for l in loops if sig(l[3]) == "$2" and gb in l[1]]
     inner = [l for l in loops if sig(l[3]) == "elem($2).inputs" and gb in l[1]]
     r.check(bool(outer) and bool(inner), "loops", "the gate sits in a loop over all inputs of all transactions", "the gate is not inside the nested loop over all inputs of all transactions")
@@ -216,7 +228,7 @@ def r4_output_construction(ctx):
 def r5_effects(ctx):
     r = ctx.rule("R5", "create_next_state: every output of every transaction (when relevant) is inserted, every input of every transaction removed, every transaction recorded; Ok only after all batch loops finished")
     b = ctx.body(AP + "create_next_state", r)
-    loops = q.loop_with_source(b, lambda s: True)
+    loops = q.loop_nest(b)
     outers = [l for l in loops if sig(l[3]) == "$2"]
     r.check(len(outers) >= 1, "loop/all-txs", "loops over all transactions", "no loop over the whole batch: %s" % [sig(l[3]) for l in loops])
     others = [l for l in loops if sig(l[3]) != "$2" and not any(l[0] in o[1] for o in outers)]
